@@ -72,3 +72,9 @@ Proof.
                 ltac:(rewrite Hcat; cbn [app]; rewrite app_nil_r; reflexivity) Hrep Hsh) as (s & t & o' & p' & H & _).
     eexists; exact H.
 Qed.
+
+(* the tie of the decoder models to the source also covers their constants: every flag / flush / status / state / size
+   constant the hand-written models spell out equals the constant regenerated from /repo on this run *)
+From MZ.proofs Require ModelConstants.
+Theorem C05_model_constants_are_source_constants : ModelConstants.inflate_constants_are_source_constants_statement.
+Proof. exact ModelConstants.inflate_constants_are_source_constants. Qed.
